@@ -101,7 +101,10 @@ class Tracker:
             b["helcoup"] = bool(op[2])
         elif k == "naming":
             b[op[2]] = bool(op[3])
-        elif k == "assign":
+        elif k == "assign":  # by name: every decay node of that resonance
+            for d in self.info["decays_of"][b["variant"]][op[2]]:
+                b["dyn"][d] = op[3]
+        elif k == "assigndecay":
             b["dyn"][op[2]] = op[3]
         elif k == "regtopo":
             b["topos"] = sorted(set(b["topos"]) | {op[2]})
@@ -202,8 +205,13 @@ def gen_history(rng, info, hid, maxops):
             if inf["n_res"] == 0:
                 continue
             nd = inf.get("n_dyn", 4)
-            add(["assign", b, rng.randrange(inf["n_res"]),
-                 rng.choices(range(nd), weights=([3, 4, 2, 2, 2, 4, 2, 2, 2, 2, 3, 2] + [1] * nd)[:nd])[0]])
+            bld = rng.choices(range(nd), weights=([3, 4, 2, 2, 2, 4, 2, 2, 2, 2, 3, 2] + [1] * nd)[:nd])[0]
+            if rng.random() < 0.5:
+                add(["assign", b, rng.randrange(inf["n_res"]), bld])
+            else:  # by node, through either overload; preferably a resonance node
+                res_nodes = [d for ds in inf["decays_of"][v] for d in ds]
+                d = rng.choice(res_nodes) if res_nodes and rng.random() < 0.8 else rng.randrange(inf["n_decays"][v])
+                add(["assigndecay", b, d, bld, rng.choice(["decay", "tuple"])])
         elif k == "regtopo":
             add(["regtopo", b, rng.randrange(inf["n_topos"][v])])
         elif k == "permutate":
@@ -255,6 +263,8 @@ def coq_ops(hist, info):
             out.append("SetNaming %d %s %s" % (b, {"parent": "NParent", "child": "NChild", "ls": "NLs"}[op[2]], coq_bool(op[3])))
         elif k == "assign":
             out.append("Assign %d %d %d" % (b, op[2], op[3]))
+        elif k == "assigndecay":
+            out.append("AssignDecay %d %d %d" % (b, op[2], op[3]))
         elif k == "regtopo":
             out.append("RegisterTopo %d %d" % (b, gid(op[2])))
         elif k == "permutate":
@@ -265,11 +275,13 @@ def coq_ops(hist, info):
 
 
 def write_cases(path, hists, info):
-    bt, po = [], []
+    bt, po, dk = [], [], []
     for idx, name in enumerate(NAMES):
         inf = info[name]
         canon = 1 if inf["canonical"] else 0
         for v in (0, 1):
+            for sel, ds in enumerate(inf["decays_of"][v]):
+                dk.append("  | %d, %d => %s" % (4 * idx + 2 * v + canon, sel, coq_list(ds)))
             bt.append("  | %d => %s" % (4 * idx + 2 * v + canon, coq_list([100 * idx + 10 * v + t for t in inf["base"][v]])))
             for t, ps in enumerate(inf["perms"][v]):
                 po.append("  | %d => %s" % (100 * idx + 10 * v + t, coq_list([100 * idx + 10 * v + p for p in ps])))
@@ -278,8 +290,9 @@ def write_cases(path, hists, info):
                  "Import ListNotations.\nSet Printing Width 1000000.\n")
         fh.write("Definition bt (r : nat) : list nat :=\n  match r with\n%s\n  | _ => []\n  end.\n" % "\n".join(bt))
         fh.write("Definition po (t : nat) : list nat :=\n  match t with\n%s\n  | _ => []\n  end.\n" % "\n".join(po))
+        fh.write("Definition dk (r sel : nat) : list nat :=\n  match r, sel with\n%s\n  | _, _ => []\n  end.\n" % "\n".join(dk))
         for h in hists:
-            fh.write("Eval vm_compute in (%d, Toy.t_show bt po observed %s).\n" % (h["id"], coq_ops(h, info)))
+            fh.write("Eval vm_compute in (%d, Toy.t_show bt po dk observed %s).\n" % (h["id"], coq_ops(h, info)))
 
 
 def decode_enc(enc, info):
@@ -488,6 +501,14 @@ def main_search(seed, n, maxops, workdir, full_seed_matrix=False):
                                                        ["formulate", 0, []], ["new", 0], ["assign", 1, 0, 10], ["assign", 1, 1, 9],
                                                        ["formulate", 1, []], ["assign", 1, 1, 11], ["assign", 1, 0, 6],
                                                        ["formulate", 1, []]]})
+    # dynamics re-assigned by node (both overloads) AFTER a formulate, no by-name assign in between
+    _dk = info["jpsi_ksp_hel"]["decays_of"][0]
+    fixed.append({"reaction": "jpsi_ksp_hel", "ops": [["new", 0], ["formulate", 0, []],
+                                                     ["assigndecay", 0, _dk[0][0], 1, "decay"], ["formulate", 0, []],
+                                                     ["assigndecay", 0, _dk[1][0], 11, "tuple"], ["formulate", 0, []],
+                                                     ["new", 0], ["assigndecay", 1, _dk[1][0], 1, "tuple"],
+                                                     ["formulate", 1, []], ["assigndecay", 0, _dk[0][0], 0, "tuple"],
+                                                     ["formulate", 0, []]]})
     for k, h in enumerate(fixed):
         h["id"] = n + k
         hists.append(h)
